@@ -127,12 +127,8 @@ func VerifC03Round() {
 	vs.Assert("nonce-parses", perr == nil)
 	yKey, perr2 := secp256k1.ParsePubKey(groupKey)
 	vs.Assert("key-parses", perr2 == nil)
-	pad32 := func(b []byte) []byte {
-		out := make([]byte, 32)
-		copy(out[32-len(b):], b)
-		return out
-	}
-	rAddr := crypto.Keccak256(pad32(rKey.X().Bytes()), pad32(rKey.Y().Bytes()))[12:]
+	be32 := func(v interface{ FillBytes([]byte) []byte }) []byte { return v.FillBytes(make([]byte, 32)) }
+	rAddr := crypto.Keccak256(be32(rKey.X()), be32(rKey.Y()))[12:]
 	var doc []byte
 	doc = append(doc, []byte("BAND-TSS-secp256k1-v0")...)
 	doc = append(doc, 0)
@@ -140,7 +136,7 @@ func VerifC03Round() {
 	doc = append(doc, 0)
 	doc = append(doc, rAddr...)
 	doc = append(doc, groupKey[0]+25)
-	doc = append(doc, pad32(yKey.X().Bytes())...)
+	doc = append(doc, be32(yKey.X())...)
 	doc = append(doc, crypto.Keccak256(msg)...)
 	vs.Assert("challenge-format", bytes.Equal(gotChallenge, crypto.Keccak256(doc)))
 
